@@ -233,9 +233,13 @@ def c_tool(job, res, mode):
     srcs = sorted(f for f in os.listdir(d) if f.endswith("_bp.c"))
     hdrs = sorted(f for f in os.listdir(d) if f.endswith("_bp.h"))
     inc = ["-I", LIBC, "-I", d]
-    for c in srcs:
-        rc, _, err = sh(["gcc", "-std=gnu99", "-fsyntax-only", "-Wall"] + inc + [os.path.join(d, c)])
-        out["syntax"][c] = {"rc": rc, "errors": diag(err, "error"), "warnings": diag(err, "warning")}
+    full = job.get("syntax_always") or mode == "c"
+    if not full and mode == "cof":
+        # quick tier: the -F variant only differs from -O by omitted functions: syntax check per file
+        for c in srcs:
+            rc1, _, err1 = sh(["gcc", "-std=gnu99", "-fsyntax-only", "-Wall"] + inc + [os.path.join(d, c)])
+            out["syntax"][c] = {"rc": rc1, "errors": diag(err1, "error"), "warnings": diag(err1, "warning")}
+        return out
     # probe: sizeof / offsetof of every struct of every generated header
     layout = []
     for h in hdrs:
@@ -253,7 +257,14 @@ def c_tool(job, res, mode):
     exe = os.path.join(d, "probe_exe")
     rc, _, err = sh(["gcc", "-std=gnu99", "-Wall", "-O0"] + inc + [os.path.join(d, c) for c in srcs]
                     + [runtime_object(job), os.path.join(d, "probe_main.c"), "-o", exe], timeout=120)
-    out["link"] = {"rc": rc, "errors": diag(err, "error") + diag(err, "multiple definition") + diag(err, "undefined reference")}
+    out["link"] = {"rc": rc, "errors": diag(err, "error") + diag(err, "multiple definition") + diag(err, "undefined reference"),
+                   "warnings": diag(err, "warning")}
+    # per-file `gcc -fsyntax-only -Wall`: always in the thorough tier; in the quick tier only when the
+    # compile+link of all sources (same flags, same diagnostics) failed, to attribute the errors
+    if rc != 0 or job.get("syntax_always"):
+        for c in srcs:
+            rc1, _, err1 = sh(["gcc", "-std=gnu99", "-fsyntax-only", "-Wall"] + inc + [os.path.join(d, c)])
+            out["syntax"][c] = {"rc": rc1, "errors": diag(err1, "error"), "warnings": diag(err1, "warning")}
     if rc == 0:
         rc2, so, se = sh([exe], timeout=20)
         if rc2 == 0:
@@ -266,6 +277,8 @@ def c_tool(job, res, mode):
                 elif p and p[0] == "O":
                     offs[f"{p[1]}.{p[2]}"] = int(p[3])
             out["probe"] = {"sizes": sizes, "offsets": offs}
+            if not full:
+                return out        # quick tier: the C++ translation unit is checked for the standard-mode header
             # C++ translation unit: same layout, API callable
             tu = ["#include <cstddef>"] + [f'#include "{h}"' for h in hdrs]
             for tag, mem in layout:
